@@ -441,6 +441,8 @@ func applyUpd(p *workflow.Plan, op updOp, step int) (obj objRef, ok bool) {
 			a.Attempts = []*workflow.Attempt{
 				// a partial result next to the error, then a different final result: every attempt keeps its own response
 				{Resp: respN(a, 1), Err: &plugins.Error{Code: 7, Message: "outer", Wrapped: &plugins.Error{Code: 8, Message: "inner", Permanent: true}}, Start: t, End: t.Add(time.Millisecond)},
+				// an error without any detail is still an error: the attempt failed (recovery decides by Err != nil)
+				{Err: &plugins.Error{}, Start: t.Add(500 * time.Millisecond), End: t.Add(600 * time.Millisecond)},
 				{Resp: respN(a, 2), Start: t.Add(time.Second), End: t.Add(2 * time.Second)}}
 			st.Status, st.Start, st.End = workflow.Completed, t, t.Add(2*time.Second)
 		case 7:
